@@ -57,6 +57,9 @@ CHECKS = {
  "C20": dict(cat="fault_enumeration", tech="TLA+ FailoverOps spec: TLC checks the two-attempt reconnect loops against the declarative Demand on the full fault product and emits it; every pattern is executed on the real FailOverClientTransport / TCPClientTransport / TCPBackend with scripted connections; Trace_Failover judges every send",
     text="The fault space of the quantifier is finite and fully enumerated in the model (45 patterns x message index) and on the code (client transports and TCP backends): returned error, connection(s) on which the complete message was observed, connections dialled, writes on a forgotten primary, elapsed time are judged against Demand (Fallback, Truthful, Once, NoHang, Straight).",
     note=TB + "accept-then-reset may report either outcome; listeners are on loopback (a black-holed destination cannot be produced in this sandbox).", ref="5/C20"),
+ "C19": dict(cat="model_checking", tech="TLA+ ResolverOps spec: TLC checks the failure counter / diff rules against the declarative contribution on all outcome sequences and emits them; every sequence is injected into a real DynamicHostResolver wired to a real RoundRobinBackend and Proxy loop; Trace_Resolver judges rotation, recognised backend addresses and closure after each step",
+    text="All 9^5 = 59049 sequences of resolution outcomes over the subsets of 3 addresses and failure (length 6 too in thorough) are model-checked (operational counters == declarative contribution: last success unless >= 4 consecutive failures followed) and emitted; quick replays every 20th, thorough all, plus random sequences to length 60 over 5-7 addresses and two names, udp and tcp; after quiescence (res.notified + rr.* + loop.bev hooks) TLC compares GetAllBackend, the proxy's index of backend addresses, closure of vanished backends.",
+    note=TB + "outcomes injected at addressResolved (the DNS lookup is the environment); two names never share an address; quiescence between steps.", ref="5/C19"),
 }
 NA_REASON = "check not built yet (work in progress; see DESIGN.md section 9)"
 
